@@ -170,7 +170,7 @@ func TestC13(t *testing.T) {
 		r.Assumptions = []string{"fixed key names are case-sensitive (GitHub's syntax), so a letter-case variant is a foreign key", "case-insensitive user-named mappings asserted: jobs, inputs, secrets, outputs, with, matrix rows; env/permissions/services only for same-spelling duplicates"}
 		others := allSectionKeys()
 		secCov := map[string]int64{}
-		r.Check(t, "mappings", hx.N(80, 2000), func(rt *rapid.T) {
+		r.Check(t, "mappings", hx.N(80, 1200), func(rt *rapid.T) {
 			g := &wf.G{T: rt, Rare: rapid.Bool().Draw(rt, "rare")}
 			w := g.Workflow()
 			if rapid.Bool().Draw(rt, "shufflekeys") {
